@@ -60,6 +60,11 @@ def rewrite(prog, c):
             continue
         tt = prog.types[c.crate]
         it_ty = a0["pl"]["t"]
+        # `try_for_each` takes `&mut self`, `for_each` takes the iterator by value
+        by_ref = tt[it_ty]["k"] == "ref"
+        arg_ty = it_ty
+        if by_ref:
+            it_ty = tt[it_ty]["t"]
         if not SLICE_ITER.match(tt[it_ty]["s"]):
             continue
         is_try = t["callee"]["def"].endswith("try_for_each")
@@ -85,7 +90,7 @@ def rewrite(prog, c):
         item_ty = hb.j["locals"][2]["t"]
         env_ty = hb.j["locals"][1]["t"]
         elem_s = tt[item_ty]["s"]
-        ref_it = _type_id(prog, c.crate, {"k": "ref", "mut": True, "t": it_ty, "s": "&mut " + tt[it_ty]["s"]})
+        ref_it = arg_ty if by_ref else _type_id(prog, c.crate, {"k": "ref", "mut": True, "t": it_ty, "s": "&mut " + tt[it_ty]["s"]})
         opt_ty = _type_id(prog, c.crate, {"k": "adt", "name": "std::option::Option", "args": [item_ty], "s": "std::option::Option<%s>" % elem_s})
         isize_ty = None
         for i, e in enumerate(tt):
@@ -116,13 +121,16 @@ def rewrite(prog, c):
             return {"s": "assign", "pl": pl, "rv": rv, "sp": sp}
         # head: _r = &mut _it ; _n = next(move _r)
         nx = copy.deepcopy(tmpl)
+        nx["callee"]["targs"] = [it_ty]
+        nx["callee"]["full"] = "<%s as std::iter::Iterator>::next" % tt[it_ty]["s"]
         nx["args"] = [{"o": "move", "pl": place(r_l, ref_it)}]
         nx["dest"] = place(n_l, opt_ty)
         nx["target"] = S
         nx["unwind"] = unwind
         nx["sp"] = sp
         nx["fsp"] = t.get("fsp")
-        B.append({"stmts": [assign(place(r_l, ref_it), {"k": "ref", "mut": True, "pl": place(it_l, it_ty)})], "term": nx, "cleanup": False})
+        B.append({"stmts": [assign(place(r_l, ref_it), {"k": "ref", "mut": True, "pl": place(it_l, it_ty, ["d"] if by_ref else [])})],
+                  "term": nx, "cleanup": False})
         B.append({"stmts": [assign(place(d_l, isize_ty), {"k": "discr", "pl": place(n_l, opt_ty)})],
                   "term": {"t": "switch", "discr": {"o": "move", "pl": place(d_l, isize_ty)}, "arms": [["0", X], ["1", Y]], "otherwise": U, "sp": sp},
                   "cleanup": False})
@@ -162,3 +170,258 @@ def _unit_ty(tt):
         if e.get("k") == "tuple" and e.get("s") == "()":
             return i
     return 0
+
+
+ARRAY_INTO_ITER = "std::array::iter::<impl std::iter::IntoIterator for [T; N]>::into_iter"
+ARRAY_NEXT = "<std::array::IntoIter<T, N> as std::iter::Iterator>::next"
+
+
+def unroll_array_loops(prog, c, max_n=16):
+    """`for x in [a, b, c] { body }` over an array literal built in the same function: the body once per element, in order, each copy
+    reading its own element (what the loop does, spelled out; emission order and per-element facts then need no loop reasoning)."""
+    import loops as loopmod
+    cj = c.j
+    n_done = 0
+    for _round in range(4):
+        c.blocks = cj["blocks"]
+        c.locals = cj["locals"]
+        c.preds = None
+        defs = mu.defs_of(c)
+        found = None
+        for bi, t in mu.calls(c, r"^std::array::iter::<impl std::iter::IntoIterator for \[T; N\]>::into_iter$"):
+            a = t["args"][0]
+            if a.get("o") not in ("copy", "move") or a["pl"]["p"] or t["dest"]["p"]:
+                continue
+            src = mu.origin_local(c, defs, a["pl"]["l"])
+            d = mu.single_def(defs, src) if src is not None else None
+            if d is None or d[1] == "term" or d[2].get("k") != "agg" or d[2].get("ak") != "array" or not (0 < len(d[2]["ops"]) <= max_n):
+                continue
+            ops = d[2]["ops"]
+            if not all(o.get("o") == "const" or (o.get("o") in ("copy", "move") and not o["pl"]["p"]) for o in ops):
+                continue
+            found = (bi, t, ops)
+            break
+        if found is None:
+            break
+        bi, t, ops = found
+        it_locals = {t["dest"]["l"]}
+        # the iterator may be moved once more (`_iter = move _it`)
+        for bl in cj["blocks"]:
+            for s in bl["stmts"]:
+                if s["s"] == "assign" and not s["pl"]["p"] and s["rv"]["k"] == "use" and s["rv"]["op"].get("o") in ("copy", "move") and \
+                        not s["rv"]["op"]["pl"]["p"] and s["rv"]["op"]["pl"]["l"] in it_locals:
+                    it_locals.add(s["pl"]["l"])
+        lps, _irr, _dom = loopmod.natural_loops(c)
+        head = None
+        for h, info in lps.items():
+            ht = cj["blocks"][h]["term"]
+            if ht["t"] == "call" and ht.get("callee") and ht["callee"]["def"] == ARRAY_NEXT and ht["target"] is not None and not ht["dest"]["p"]:
+                r = mu.ref_root(c, mu.defs_of(c), mu.op_local(ht["args"][0])) if mu.op_local(ht["args"][0]) is not None else None
+                if r in it_locals:
+                    head = (h, info)
+        if head is None:
+            break
+        h, info = head
+        ht = cj["blocks"][h]["term"]
+        n_l = ht["dest"]["l"]
+        S = ht["target"]
+        sw = cj["blocks"][S]["term"]
+        if sw["t"] != "switch" or S not in info["body"]:
+            break
+        arms = {int(v): tg for v, tg in sw["arms"]}
+        Y, X = arms.get(1), arms.get(0, sw["otherwise"] if 0 not in arms else None)
+        if Y is None or X is None or Y not in info["body"] or X in info["body"]:
+            break
+        body = sorted(info["body"] - {h, S})
+        B = cj["blocks"]
+        entries = []
+        maps = []
+        for k in range(len(ops)):
+            base = len(B)
+            m = {old: base + i for i, old in enumerate(body)}
+            maps.append(m)
+            for old in body:
+                B.append(copy.deepcopy(B[old]))
+            entries.append(m[Y])
+        for k, m in enumerate(maps):
+            nxt = entries[k + 1] if k + 1 < len(entries) else X
+            opk = copy.deepcopy(ops[k])
+            if opk.get("o") == "move":
+                opk["o"] = "copy"
+
+            def fix_target(x):
+                if x == h:
+                    return nxt
+                return m.get(x, x)
+            for old in body:
+                nb = B[m[old]]
+                tt = nb["term"]
+                for key in ("target", "otherwise"):
+                    if isinstance(tt.get(key), int):
+                        tt[key] = fix_target(tt[key])
+                if "arms" in tt:
+                    tt["arms"] = [[a0, fix_target(a1)] for a0, a1 in tt["arms"]]
+                # the element: reads of (_n as Some).0 become the k-th operand of the literal
+                for s in nb["stmts"]:
+                    if s["s"] == "assign" and s["rv"]["k"] == "use" and s["rv"]["op"].get("o") in ("copy", "move"):
+                        pl = s["rv"]["op"]["pl"]
+                        if pl["l"] == n_l and len(pl["p"]) == 2 and isinstance(pl["p"][0], dict) and pl["p"][0].get("n") == "Some":
+                            s["rv"] = {"k": "use", "op": opk}
+        # enter the first copy instead of the loop head; the old loop is left unreachable
+        first = entries[0]
+        for i, bl in enumerate(B):
+            if i in info["body"]:
+                continue
+            tt = bl["term"]
+            for key in ("target", "otherwise"):
+                if tt.get(key) == h and isinstance(tt.get(key), int):
+                    tt[key] = first
+            if "arms" in tt:
+                tt["arms"] = [[a0, first if a1 == h else a1] for a0, a1 in tt["arms"]]
+        B[h]["term"] = {"t": "unreachable", "sp": ht["sp"]}
+        B[h]["stmts"] = []
+        for old in body + [S]:
+            B[old]["term"] = {"t": "unreachable", "sp": ht["sp"]}
+            B[old]["stmts"] = []
+        # the into_iter call itself stays (its result is only dropped)
+        n_done += 1
+    c.blocks = cj["blocks"]
+    c.locals = cj["locals"]
+    c.preds = None
+    return n_done
+
+
+RANGE_NEXT = "std::iter::range::<impl std::iter::Iterator for std::ops::Range<A>>::next"
+SLICE_NEXT = "<std::slice::Iter<'a, T> as std::iter::Iterator>::next"
+
+
+def _template(prog, crate, callee_def):
+    for b in prog.bodies.values():
+        if b.crate != crate:
+            continue
+        for bl in b.j["blocks"]:
+            t = bl["term"]
+            if t["t"] == "call" and t.get("callee") and t["callee"]["def"] == callee_def:
+                return t
+    return None
+
+
+def rewrite_try_fold(prog, c):
+    """`iter.try_fold(init, |acc, x| -> Result<Acc, E>)` over a range or a slice iterator, as the loop it abbreviates:
+           let mut acc = init; loop { match it.next() { None => break Ok(acc), Some(x) => match f(acc, x) { Ok(a) => acc = a, e => break e } } }
+    returns [(block index of the synthetic closure call, closure body)]"""
+    cj = c.j
+    out = []
+    bi = 0
+    while bi < len(cj["blocks"]):
+        bl = cj["blocks"][bi]
+        t = bl["term"]
+        bi += 1
+        if bl["cleanup"] or t["t"] != "call" or not t.get("callee") or t["callee"]["def"] != "std::iter::Iterator::try_fold":
+            continue
+        if len(t["args"]) != 3 or t["target"] is None or t["dest"]["p"]:
+            continue
+        a0, a1, a2 = t["args"]
+        if any(a.get("o") not in ("move", "copy") or a["pl"]["p"] for a in (a0, a1, a2)):
+            continue
+        tt = prog.types[c.crate]
+        arg_ty = a0["pl"]["t"]
+        if tt[arg_ty]["k"] != "ref":
+            continue
+        it_ty = tt[arg_ty]["t"]
+        its = tt[it_ty]["s"]
+        if its.startswith("std::ops::Range<"):
+            next_def = RANGE_NEXT
+        elif SLICE_ITER.match(its):
+            next_def = SLICE_NEXT
+        else:
+            continue
+        dest_ty = t["dest"]["t"]
+        if not tt[dest_ty]["s"].startswith("std::result::Result<"):
+            continue
+        cl_local = a2["pl"]["l"]
+        cdef = None
+        for b2 in cj["blocks"]:
+            for s in b2["stmts"]:
+                if s["s"] == "assign" and not s["pl"]["p"] and s["pl"]["l"] == cl_local:
+                    cdef = s["rv"] if cdef is None else False
+        if not cdef or cdef.get("k") != "agg" or cdef.get("ak") != "closure":
+            continue
+        hb = prog.bodies.get(cdef["def"])
+        if hb is None or hb.argc != 3 or hb.crate != c.crate or hb.j["locals"][0]["t"] != dest_ty:
+            continue
+        tmpl = _template(prog, c.crate, next_def)
+        if tmpl is None:
+            continue
+        acc_ty = hb.j["locals"][2]["t"]
+        item_ty = hb.j["locals"][3]["t"]
+        env_ty = hb.j["locals"][1]["t"]
+        if acc_ty != a1["pl"]["t"]:
+            continue
+        opt_ty = _type_id(prog, c.crate, {"k": "adt", "name": "std::option::Option", "args": [item_ty], "s": "std::option::Option<%s>" % tt[item_ty]["s"]})
+        isize_ty = None
+        for i, e in enumerate(tt):
+            if e.get("k") == "int" and e.get("s") == "isize":
+                isize_ty = i
+        if isize_ty is None:
+            continue
+        sp = t["sp"]
+        L = cj["locals"]
+
+        def new_local(ty):
+            L.append({"t": ty, "mut": True})
+            return len(L) - 1
+
+        def place(l, ty, p=None):
+            return {"l": l, "p": p or [], "t": ty}
+
+        def assign(pl, rv):
+            return {"s": "assign", "pl": pl, "rv": rv, "sp": sp}
+        acc_l = a1["pl"]["l"]
+        r_l, n_l, d_l, x_l, e_l, res_l, d2_l, accarg_l = (new_local(arg_ty), new_local(opt_ty), new_local(isize_ty), new_local(item_ty),
+                                                          new_local(env_ty), new_local(dest_ty), new_local(isize_ty), new_local(acc_ty))
+        B = cj["blocks"]
+        base = len(B)
+        H, S, U, Y, C, K, E, X = (base + i for i in range(8))
+        target, unwind = t["target"], t.get("unwind")
+        nx = copy.deepcopy(tmpl)
+        nx["callee"]["targs"] = [it_ty]
+        nx["callee"]["full"] = "<%s as std::iter::Iterator>::next" % its
+        nx["args"] = [{"o": "move", "pl": place(r_l, arg_ty)}]
+        nx["dest"] = place(n_l, opt_ty)
+        nx["target"] = S
+        nx["unwind"] = unwind
+        nx["sp"] = sp
+        nx["fsp"] = t.get("fsp")
+        B.append({"stmts": [assign(place(r_l, arg_ty), {"k": "ref", "mut": True, "pl": place(a0["pl"]["l"], it_ty, ["d"])})], "term": nx, "cleanup": False})
+        B.append({"stmts": [assign(place(d_l, isize_ty), {"k": "discr", "pl": place(n_l, opt_ty)})],
+                  "term": {"t": "switch", "discr": {"o": "move", "pl": place(d_l, isize_ty)}, "arms": [["0", X], ["1", Y]], "otherwise": U, "sp": sp},
+                  "cleanup": False})
+        B.append({"stmts": [], "term": {"t": "unreachable", "sp": sp}, "cleanup": False})
+        some0 = place(n_l, item_ty, [{"dc": 1, "n": "Some"}, {"f": 0, "n": "0", "adt": "std::option::Option", "v": "Some"}])
+        env_is_ref = tt[env_ty]["k"] == "ref"
+        env_rv = {"k": "ref", "mut": bool(tt[env_ty].get("mut")), "pl": place(cl_local, a2["pl"]["t"])} if env_is_ref else \
+            {"k": "use", "op": {"o": "move", "pl": place(cl_local, a2["pl"]["t"])}}
+        call = {"t": "call", "callee": {"cargs": [], "may_call": [], "id": hb.id, "def": hb.j["def"], "full": hb.j["def"], "orig": hb.j["def"],
+                                       "resolved": True, "trait_item": False, "trait": None, "targs": [], "crate": c.crate,
+                                       "name": hb.j.get("name") or "{closure}", "local": True, "impl": None},
+                "fop": None, "args": [{"o": "move", "pl": place(e_l, env_ty)}, {"o": "move", "pl": place(accarg_l, acc_ty)},
+                                      {"o": "move", "pl": place(x_l, item_ty)}],
+                "dest": place(res_l, dest_ty), "target": C, "unwind": unwind, "src": "Normal", "sp": sp, "fsp": t.get("fsp")}
+        B.append({"stmts": [assign(place(x_l, item_ty), {"k": "use", "op": {"o": "copy", "pl": some0}}), assign(place(e_l, env_ty), env_rv),
+                            assign(place(accarg_l, acc_ty), {"k": "use", "op": {"o": "move", "pl": place(acc_l, acc_ty)}})],
+                  "term": call, "cleanup": False})
+        B.append({"stmts": [assign(place(d2_l, isize_ty), {"k": "discr", "pl": place(res_l, dest_ty)})],
+                  "term": {"t": "switch", "discr": {"o": "move", "pl": place(d2_l, isize_ty)}, "arms": [["0", K]], "otherwise": E, "sp": sp},
+                  "cleanup": False})
+        ok0 = place(res_l, acc_ty, [{"dc": 0, "n": "Ok"}, {"f": 0, "n": "0", "adt": "std::result::Result", "v": "Ok"}])
+        B.append({"stmts": [assign(place(acc_l, acc_ty), {"k": "use", "op": {"o": "move", "pl": ok0}})], "term": {"t": "goto", "target": H, "sp": sp},
+                  "cleanup": False})
+        B.append({"stmts": [assign(place(t["dest"]["l"], dest_ty), {"k": "use", "op": {"o": "move", "pl": place(res_l, dest_ty)}})],
+                  "term": {"t": "goto", "target": target, "sp": sp}, "cleanup": False})
+        okv = {"k": "agg", "ak": "adt", "adt": "std::result::Result", "vn": "Ok", "vi": 0, "fields": ["0"], "union_field": None,
+               "ops": [{"o": "move", "pl": place(acc_l, acc_ty)}]}
+        B.append({"stmts": [assign(place(t["dest"]["l"], dest_ty), okv)], "term": {"t": "goto", "target": target, "sp": sp}, "cleanup": False})
+        bl["term"] = {"t": "goto", "target": H, "sp": sp}
+        out.append((Y, hb))
+    return out
